@@ -11,7 +11,7 @@ ID = 'C19'
 LEVEL = 'exploration'
 RULE = ('all formulas of the stated fragment (arithmetic, comparisons, Boolean operators, once/historically bounded or not, bounded eventually/always; '
         '<=2 operators, 3-chains) x all traces up to length n read both as a discrete trace and as a step signal sampled on the grid; sampling period '
-        '1 s and 500 ms with bounds that are multiples of it; the real dense offline result read at k*period must equal the real discrete offline '
+        '1 s and 500 ms with bounds that are multiples of it; deep layers: bounds up to 7 over a two-letter alphabet (n=9/11) and single wide operators over three value levels (n=8/10); the real dense offline result read at k*period must equal the real discrete offline '
         'result at sample k for every k with k + horizon < n; non-trivial = the reference output is not constant +-inf and the top operator mattered')
 ASSUMPTIONS = ['both sides are the real implementation; the reference is only used for the horizon and the non-triviality count']
 
@@ -45,6 +45,10 @@ def shards(tier):
     deep = [f for f in F.deep_formulas(OPS_U, (), two_var=False) if not F.has_op(f, ('prev', 'next', 'rise'))]
     deep = deep[::3] if tier == 'quick' else deep
     out += [{'formulas': [F.to_json(f) for f in deep[i:i + 3]], 'deep': True} for i in range(0, len(deep), 3)]
+    # one wide operator over three value levels (orderings among the samples before / inside / after the window need three levels)
+    d3 = [(op, I, F.X) for op in ('once', 'historically', 'eventually', 'always') for I in ((2, 6), (3, 7), (2, 5), (0, 4))]
+    d3 += [('always', (2, 6), ('eventually', (1, 2), F.X)), ('eventually', (3, 7), ('not', F.X)), ('or', ('eventually', (2, 6), F.X), ('once', (2, 6), F.X))]
+    out += [{'formulas': [F.to_json(f)], 'deep3': True} for f in d3]
     return out
 
 
@@ -92,7 +96,9 @@ def run_shard(shard, tier, res):
         values = F.V3 if (len(vs) == 1 or not quick) else F.V2
         if shard.get('deep'):
             n, values = (9 if quick else 11), F.V2
-        for cfg in CONFIGS:
+        if shard.get('deep3'):
+            n, values = (8 if quick else 10), F.V3
+        for cfg in (CONFIGS[:2] if shard.get('deep3') and quick else CONFIGS):
             text = 'out = ' + F.pr(f, cfg[2])
             try:
                 specs = (impl.build('dt_off', text, vs, period=cfg[3]), impl.build('ct_off', text, vs))
